@@ -217,9 +217,11 @@ def _pasv(n1, n2, n3, n4, n5, n6, shape):
         addr = run(cm.passive_mode())
     except ProtocolError:
         hit('refused')
-        return shape not in (0, 1) or any(n > 999 for n in nums)
+        return shape not in (0, 1) or any(n > 255 for n in nums)       # a usable address needs six numbers 0..255
     hit('parsed')
-    return addr == ('%d.%d.%d.%d' % (n1, n2, n3, n4), n5 * 256 + n6) or addr[1] == (n5 << 8 | n6)
+    if any(n > 255 for n in nums):
+        return False                                                    # e.g. port 999*256+999 cannot be connected to
+    return addr == ('%d.%d.%d.%d' % (n1, n2, n3, n4), n5 * 256 + n6)
 
 
 HARNESSES = [
